@@ -50,25 +50,48 @@ func ReadListEnd(r *bufio.Reader) bool {
 	return expect(r, ')')
 }
 
+// maxDepth is the deepest nesting of lists the reader follows; libotr key files need five levels
+const maxDepth = 256
+
 // ReadList will read a list and return it
 func ReadList(r *bufio.Reader) Value {
+	return readList(r, 0)
+}
+
+func readList(r *bufio.Reader, depth int) Value {
 	ReadWhitespace(r)
 	if !ReadListStart(r) {
 		return nil
 	}
-	result := ReadListItem(r)
+	if depth >= maxDepth {
+		return nil
+	}
+	result := readListItem(r, depth+1)
 	if !ReadListEnd(r) {
 		return nil
 	}
 	return result
 }
 
-// ReadListItem recursively read a list item and the next potential item
+// ReadListItem reads the remaining items of a list and returns them as a chain of cons cells
 func ReadListItem(r *bufio.Reader) Value {
-	ReadWhitespace(r)
-	val, end := ReadValue(r)
-	if end {
-		return Snil{}
+	return readListItem(r, 1)
+}
+
+func readListItem(r *bufio.Reader, depth int) Value {
+	var items []Value
+	for {
+		ReadWhitespace(r)
+		val, end := readValue(r, depth)
+		if end {
+			break
+		}
+		items = append(items, val)
 	}
-	return Cons{val, ReadListItem(r)}
+
+	var result Value = Snil{}
+	for i := len(items) - 1; i >= 0; i-- {
+		result = Cons{items[i], result}
+	}
+	return result
 }
